@@ -1,37 +1,45 @@
 (* C16 -- where the implementation's matcher (Model.impl_quirks) differs from the specification
    (Model.spec_quirks = MatchRel), and where it provably does not.
 
-   When a quirk is repaired in /repo: set the corresponding field of [Model.impl_quirks] to [false],
-   delete the Example of that quirk below, and (if no quirk is left) replace impl_differs_from_spec by
-   the unconditional equality.  Nothing else in the development depends on the values of impl_quirks. *)
+   History: stride-dim0 (F-C16-1) and writeconfig-wildcard (F-C16-3) were repaired in /repo
+   (80472758, e0571e51); their fields of [impl_quirks] are false now and their former witnesses are kept
+   below as REGRESSION examples (they must evaluate the repaired way).  Open: call-args-ignored (F-C16-2).
+   When that one is repaired: set q_callargs := false in Model.impl_quirks, turn quirk_callargs into a
+   regression example, and replace impl_differs_from_spec / impl_decides_matchrel by the unconditional
+   equality (impl_quirks = spec_quirks then holds by reflexivity). *)
 From Coq Require Import List ZArith Bool String Arith Lia.
 From Find Require Import Model Spec Proofs_Match.
 Import ListNotations.
 Local Open Scope string_scope.
 
 (* ------------------------------------------------------------------ *)
-(** * witnesses (current behaviour of pattern_match.py) *)
+(** * regression examples for the two repaired deviations *)
 
-(* (1) stride(A, 0) matches stride(A, 1)            pattern_match.py:343  `... or not bool(pat.dim)` *)
-Example quirk_stride0 :
-  match_e impl_quirks (StrideExpr "A" 1) (PStride "A" (Some 0)) = true /\
-  match_e spec_quirks (StrideExpr "A" 1) (PStride "A" (Some 0)) = false /\
+(* stride(A, 0) no longer matches stride(A, 1); stride(A, _) and stride(A, 1) still do *)
+Example regression_stride0 :
+  match_e impl_quirks (StrideExpr "A" 1) (PStride "A" (Some 0)) = false /\
+  match_e impl_quirks (StrideExpr "A" 0) (PStride "A" (Some 0)) = true /\
+  match_e impl_quirks (StrideExpr "A" 1) (PStride "A" None) = true /\
   ~ MatchE (PStride "A" (Some 0)) (StrideExpr "A" 1).
 Proof.
-  split; [reflexivity|]. split; [reflexivity|].
-  intros H. apply match_e_dec in H. discriminate H.
+  repeat split. intros H. apply match_e_dec in H. discriminate H.
 Qed.
 
-(* (2) callee(1) matches callee(2)                   pattern_match.py:285  only the name is compared *)
+(* `_.a = _` and `Cfg._ = _` match `Cfg.a = 1`; a different field does not *)
+Example regression_wcfg :
+  match_stmt impl_quirks (WriteConfig "Cfg" "a" (Const (CV 1 1))) (PWriteConfig "_" "a") = true /\
+  match_stmt impl_quirks (WriteConfig "Cfg" "a" (Const (CV 1 1))) (PWriteConfig "Cfg" "_") = true /\
+  match_stmt impl_quirks (WriteConfig "Cfg" "a" (Const (CV 1 1))) (PWriteConfig "_" "b") = false /\
+  MatchS (PWriteConfig "_" "a") (WriteConfig "Cfg" "a" (Const (CV 1 1))) true.
+Proof. repeat split. apply match_stmt_dec. reflexivity. Qed.
+
+(* ------------------------------------------------------------------ *)
+(** * the open deviation: call arguments are ignored *)
+
+(* callee(1) matches callee(2)                   pattern_match.py: Call case compares only the name *)
 Example quirk_callargs :
   match_stmt impl_quirks (Call "callee" [Const (CV 2 1)]) (PCall "callee" [PConst (CV 1 1)]) = true /\
   MatchS (PCall "callee" [PConst (CV 1 1)]) (Call "callee" [Const (CV 2 1)]) false.
-Proof. split; [reflexivity|]. apply match_stmt_dec. reflexivity. Qed.
-
-(* (3) `_.a = _` does not match `Cfg.a = 1`          pattern_match.py:287  match_name(ir, pat) swapped *)
-Example quirk_wcfg :
-  match_stmt impl_quirks (WriteConfig "Cfg" "a" (Const (CV 1 1))) (PWriteConfig "_" "a") = false /\
-  MatchS (PWriteConfig "_" "a") (WriteConfig "Cfg" "a" (Const (CV 1 1))) true.
 Proof. split; [reflexivity|]. apply match_stmt_dec. reflexivity. Qed.
 
 (* the full-strength statement "the implementation decides MatchRel" is false of the faithful model *)
@@ -43,7 +51,7 @@ Proof.
 Qed.
 
 (* ------------------------------------------------------------------ *)
-(** * on benign patterns both matchers agree *)
+(** * expressions: the implementation's matcher IS the specification's *)
 
 Lemma zip_all_ext_in : forall {A B} (f g : A -> B -> bool) lb la,
   (forall a b, In a la -> In b lb -> f a b = g a b) -> zip_all f la lb = zip_all g la lb.
@@ -52,23 +60,22 @@ Proof.
   rewrite H by (simpl; auto). f_equal. apply IH. intros; apply H; simpl; auto.
 Qed.
 
-Lemma impl_spec_e : forall e p, benign_e p = true -> match_e impl_quirks e p = match_e spec_quirks e p.
+Lemma impl_spec_e : forall e p, match_e impl_quirks e p = match_e spec_quirks e p.
 Proof.
-  induction e using expr_ind'; intros p B; destruct p; simpl in *; auto.
-  - f_equal. apply zip_all_ext_in. intros a b Ha Hb.
-    rewrite Forall_forall in H. apply H; auto. rewrite forallb_forall in B. auto.
-  - apply andb_true_iff in B. destruct B as [B1 B2]. rewrite IHe1, IHe2; auto.
-  - f_equal. apply zip_all_ext_in. intros a b Ha Hb.
-    rewrite Forall_forall in H. apply H; auto. rewrite forallb_forall in B. auto.
-  - f_equal. destruct dim as [[|k]|]; simpl; auto; try discriminate.
+  induction e using expr_ind'; intros p; destruct p; simpl in *; auto.
+  - f_equal. apply zip_all_ext_in. intros a b Ha Hb. rewrite Forall_forall in H. apply H; auto.
+  - rewrite IHe1, IHe2. reflexivity.
+  - f_equal. apply zip_all_ext_in. intros a b Ha Hb. rewrite Forall_forall in H. apply H; auto.
 Qed.
 
-Lemma impl_spec_es : forall ps es, forallb benign_e ps = true ->
-  match_es impl_quirks ps es = match_es spec_quirks ps es.
-Proof.
-  intros. unfold match_es. apply zip_all_ext_in. intros a b Ha _. apply impl_spec_e.
-  rewrite forallb_forall in H. auto.
-Qed.
+Lemma impl_spec_es : forall ps es, match_es impl_quirks ps es = match_es spec_quirks ps es.
+Proof. intros. unfold match_es. apply zip_all_ext_in. intros a b _ _. apply impl_spec_e. Qed.
+
+Theorem impl_decides_matche : forall p e, match_e impl_quirks e p = true <-> MatchE p e.
+Proof. intros p e. rewrite impl_spec_e. apply match_e_dec. Qed.
+
+(* ------------------------------------------------------------------ *)
+(** * statements: on patterns whose call patterns have only hole arguments both matchers agree *)
 
 Lemma match_seq_ext_in : forall {X} (m1 m2 : pstmt -> X -> bool) blk ps,
   (forall p s, In p ps -> In s blk -> m1 p s = m2 p s) -> match_seq m1 ps blk = match_seq m2 ps blk.
@@ -92,68 +99,46 @@ Proof.
   rewrite match_e_hole. simpl. apply IH. exact H2.
 Qed.
 
-Lemma name_ne_hole : forall a b, String.eqb a hole_name = false -> String.eqb b hole_name = false ->
-  match_name a b = match_name b a.
-Proof. intros. unfold match_name. rewrite H, H0. simpl. apply String.eqb_sym. Qed.
-
-Lemma impl_spec_s : forall s p, benign_s p = true -> no_underscore_cfg s = true ->
-  match_stmt impl_quirks s p = match_stmt spec_quirks s p.
+Lemma impl_spec_s : forall s p, benign_s p = true -> match_stmt impl_quirks s p = match_stmt spec_quirks s p.
 Proof.
-  induction s using stmt_ind'; intros p B U; destruct p; simpl in *; auto.
-  - apply andb_true_iff in B. destruct B as [B1 B2]. rewrite impl_spec_es, impl_spec_e; auto.
-  - apply andb_true_iff in B. destruct B as [B1 B2]. rewrite impl_spec_es, impl_spec_e; auto.
-  - unfold match_writeconfig. simpl.
-    apply andb_true_iff in B, U. destruct B as [B1 B2]. destruct U as [U1 U2].
-    apply negb_true_iff in B1, B2, U1, U2.
-    rewrite (name_ne_hole c cfg), (name_ne_hole f fld); auto.
+  induction s using stmt_ind'; intros p B; destruct p; simpl in *; auto.
+  - rewrite impl_spec_es, impl_spec_e. reflexivity.
+  - rewrite impl_spec_es, impl_spec_e. reflexivity.
   - (* If *)
-    apply andb_true_iff in B. destruct B as [B12 B3]. apply andb_true_iff in B12. destruct B12 as [B1 B2].
-    apply andb_true_iff in U. destruct U as [U1 U2].
-    rewrite impl_spec_e by auto.
+    apply andb_true_iff in B. destruct B as [B1 B2].
+    rewrite impl_spec_e.
     rewrite (match_seq_ext_in (fun p s' => match_stmt impl_quirks s' p) (fun p s' => match_stmt spec_quirks s' p) b body).
     rewrite (match_seq_ext_in (fun p s' => match_stmt impl_quirks s' p) (fun p s' => match_stmt spec_quirks s' p) o orelse).
     reflexivity.
-    + intros p s Hp Hs. rewrite Forall_forall in H0. apply H0; auto.
-      * rewrite forallb_forall in B3; auto.
-      * rewrite forallb_forall in U2; auto.
-    + intros p s Hp Hs. rewrite Forall_forall in H. apply H; auto.
-      * rewrite forallb_forall in B2; auto.
-      * rewrite forallb_forall in U1; auto.
+    + intros p s Hp Hs. rewrite Forall_forall in H0. apply H0; auto. rewrite forallb_forall in B2; auto.
+    + intros p s Hp Hs. rewrite Forall_forall in H. apply H; auto. rewrite forallb_forall in B1; auto.
   - (* For *)
-    apply andb_true_iff in B. destruct B as [B12 B3]. apply andb_true_iff in B12. destruct B12 as [B1 B2].
-    rewrite !impl_spec_e by auto.
+    rewrite !impl_spec_e.
     rewrite (match_seq_ext_in (fun p s' => match_stmt impl_quirks s' p) (fun p s' => match_stmt spec_quirks s' p) b body).
     reflexivity.
-    intros p s Hp Hs. rewrite Forall_forall in H. apply H; auto.
-    + rewrite forallb_forall in B3; auto.
-    + rewrite forallb_forall in U; auto.
-  - destruct sh; auto. rewrite impl_spec_es; auto.
+    intros p s Hp Hs. rewrite Forall_forall in H. apply H; auto. rewrite forallb_forall in B; auto.
+  - destruct sh; auto. rewrite impl_spec_es. reflexivity.
   - unfold match_call_args. simpl. rewrite all_eholes_match; auto.
-  - apply andb_true_iff in B. destruct B as [B1 B2]. rewrite impl_spec_e; auto.
+  - rewrite impl_spec_e. reflexivity.
 Qed.
 
 Theorem impl_spec_stmts : forall pats blk,
-  forallb benign_s pats = true -> forallb no_underscore_cfg blk = true ->
-  match_stmts impl_quirks pats blk = match_stmts spec_quirks pats blk.
+  forallb benign_s pats = true -> match_stmts impl_quirks pats blk = match_stmts spec_quirks pats blk.
 Proof.
-  intros pats blk B U. unfold match_stmts. apply match_seq_ext_in. intros p s Hp Hs.
-  apply impl_spec_s; [rewrite forallb_forall in B | rewrite forallb_forall in U]; auto.
+  intros pats blk B. unfold match_stmts. apply match_seq_ext_in. intros p s Hp Hs.
+  apply impl_spec_s. rewrite forallb_forall in B. auto.
 Qed.
 
-(* the hypotheses of impl_spec_stmts are satisfiable (and the conclusion is a genuine match) *)
-Example impl_spec_stmts_nonvacuous :
-  let pats := [PFor "i" PE_Hole PE_Hole [PS_Hole]; PS_Hole; PAssign "x" [] PE_Hole] in
-  let blk := [For "i" (Const (CV 0 1)) (Read "n" []) [Pass]; Pass; Pass; Assign "x" [Read "i" []] (Const (CV 1 1)); Pass] in
-  forallb benign_s pats = true /\ forallb no_underscore_cfg blk = true /\
-  match_stmts impl_quirks pats blk = Some 4%nat.
-Proof. repeat split. Qed.
-
-(* under the excluding hypotheses the implementation's matcher decides MatchRel *)
+(* under the excluding hypothesis the implementation's matcher decides MatchRel *)
 Theorem impl_decides_matchrel : forall pats blk r,
-  forallb benign_s pats = true -> forallb no_underscore_cfg blk = true ->
+  forallb benign_s pats = true ->
   (match_stmts impl_quirks pats blk = Some r <-> MatchRel pats blk r).
-Proof. intros pats blk r B U. rewrite impl_spec_stmts by assumption. apply match_rel_dec. Qed.
+Proof. intros pats blk r B. rewrite impl_spec_stmts by assumption. apply match_rel_dec. Qed.
 
-Theorem impl_decides_matche : forall p e,
-  benign_e p = true -> (match_e impl_quirks e p = true <-> MatchE p e).
-Proof. intros p e B. rewrite impl_spec_e by assumption. apply match_e_dec. Qed.
+(* the hypothesis of impl_decides_matchrel is satisfiable (and the conclusion is a genuine match) *)
+Example impl_spec_stmts_nonvacuous :
+  let pats := [PFor "i" PE_Hole PE_Hole [PS_Hole]; PS_Hole; PAssign "x" [] PE_Hole; PCall "f" [PE_Hole]] in
+  let blk := [For "i" (Const (CV 0 1)) (Read "n" []) [Pass]; Pass; Pass; Assign "x" [Read "i" []] (Const (CV 1 1));
+              Call "f" [Read "x" []; Read "y" []]; Pass] in
+  forallb benign_s pats = true /\ match_stmts impl_quirks pats blk = Some 5%nat.
+Proof. repeat split. Qed.
